@@ -23,6 +23,7 @@ from unyt import dimensions as udims
 from unyt.exceptions import UnitParseError
 from unyt.unit_object import Unit, define_unit
 from unyt.unit_registry import UnitRegistry
+from unyt.unit_systems import UnitSystem
 
 DIMS = {"length": udims.length, "time": udims.time, "mass": udims.mass}
 
@@ -60,6 +61,8 @@ SEEDS_QUICK = [
     ("keepcopy", "foo"),
     ("div", "foo", "bar"),
     ("simp", "foo*s/bar"),
+    ("usys", "length"),
+    ("usys", "velocity"),
 ]
 SEEDS_THOROUGH = SEEDS_QUICK + [
     ("unit", "Mfoo"),
@@ -299,6 +302,11 @@ def apply_event(w, ev):
         elif k == "keepcopy":
             u = Unit(ev[1], registry=r)
             w.kept_copies.append((u * u).copy())  # the copy is bound to a shallow copy of the registry (same table)
+        elif k == "usys":
+            # a unit system bound to this registry whose length unit is the user symbol; read one of its dimensions
+            if w.us is None:
+                w.us = UnitSystem("code_sys", "foo", "g", "s", registry=r)
+            w.us[ev[1]]
         elif k == "contains":
             ev[1] in r
         elif k == "getitem":
@@ -364,6 +372,7 @@ class System:
         w.T = {}
         w.kept = []
         w.kept_copies = []
+        w.us = None
         w.log = []
         w.edit_results = []
         for ev in self.prefix + tuple(hist):
@@ -384,6 +393,8 @@ class System:
             tuple((s, d) for s, _u, d in w.kept),
             tuple(w.log),
             world.digest()[0:3],
+            # a unit system object bound to the registry, and what has been read through it (its own memo, if it had one)
+            tuple(ev for ev in hist if ev[0] == "usys"),
         )
 
     def deviations(self, hist):
@@ -446,6 +457,32 @@ class System:
                     ctx.violation(
                         f"C12|kept-copy|probe={_pclass(s)}|edit={info['last_edit'].get(_base(s), 'none')}|mode=edit-not-seen-through-copied-unit's-registry",
                         {"history": case["history"], "prefix": case["prefix"], "probe": s},
+                        b,
+                        a,
+                    )
+        # a unit system bound to the registry answers from the registry's CURRENT contents, like a system built now
+        if w.us is not None:
+            def _read(us, dim):
+                try:
+                    u = us[dim]
+                    return ("ok", float(u.base_value), 0.0, dim_of(u.dimensions))
+                except Exception as e:  # noqa: BLE001
+                    return ("raise", type(e).__name__)
+
+            try:
+                fresh_us = UnitSystem("code_sys_now", "foo", "g", "s", registry=w.r)
+            except Exception:  # noqa: BLE001
+                fresh_us = None
+            for dim in ("length", "velocity", "energy", "area"):
+                a = _read(w.us, dim)
+                b = _read(fresh_us, dim) if fresh_us is not None else ("raise", "construction")
+                ctx.decided((hist, "usys", dim))
+                if a[0] != b[0] or (a[0] == "ok" and not same(a, b)):
+                    if fresh_us is None and a[0] == "ok" and same(a, resolve_real(w.r, {"length": "foo", "velocity": "foo/s", "energy": "g*foo**2/s**2", "area": "foo**2"}[dim])):
+                        continue  # the symbol changed dimension: the old system is ill-defined now, but what it returns is current
+                    ctx.violation(
+                        f"C12|unit-system|dim={dim}|edit={info['last_edit'].get('foo', 'none')}|mode=bound-system-answers-from-before-the-edit",
+                        {"history": case["history"], "prefix": case["prefix"], "dim": dim},
                         b,
                         a,
                     )
